@@ -8,16 +8,16 @@ import common as C
 
 PID = "C15"
 DRIVER = [("C15", ["TfPwaV.Gen.LineShapeF", "TfPwaV.Model.Bessel"], "(LineShapeF.handle rest).orElse fun _ => Bessel.handle rest")]
-LEAN_TARGETS = ["TfPwaV.Props.C15", "TfPwaV.Gen.LineShapeF", "TfPwaV.Model.Bessel"]
-PROP_MODULES = ["TfPwaV.Props.C15"]
-ALL_MODULES = ["TfPwaV.Model.Bessel", "TfPwaV.Proofs.LineShape", "TfPwaV.Props.C15", "TfPwaV.Proofs.ScalarR"]
+LEAN_TARGETS = ["TfPwaV.Props.C15", "TfPwaV.Props.C15b", "TfPwaV.Gen.LineShapeF", "TfPwaV.Model.Bessel"]
+PROP_MODULES = ["TfPwaV.Props.C15", "TfPwaV.Props.C15b"]
+ALL_MODULES = ["TfPwaV.Model.Bessel", "TfPwaV.Proofs.LineShape", "TfPwaV.Props.C15", "TfPwaV.Props.C15b", "TfPwaV.Proofs.ScalarR"]
 ASSUMPTIONS = [
     "IEEE double evaluation of the same formula text (Lean Float vs TensorFlow) agrees to 1e-10 relative to |value| (observed worst 5e-13); inputs where |P_L(z)| < 1e-4 sum|c_i z^i| (near a real zero of the Blatt-Weisskopf polynomial at negative q^2) are counted as ill-conditioned and skipped; mass grids stay >= 1.5e-3 (relative) away from two-body thresholds",
     "theorems are over the reals (Mathlib R and C) with Lean's totalised division: at an exactly vanishing denominator both sides of an `_eq_spec` theorem are 0 while IEEE gives NaN/inf; such inputs are outside the claim (hypotheses name the denominator where a theorem needs it)",
     "x**n is repeated multiplication (kpowN = x^n proved), tanh is (e^x-e^-x)/(e^x+e^-x) (= Real.tanh proved), float32 rounding is the identity over the reals (kf32), the GS constant 3.14159265359 is the code's own literal",
-    "GS_rho: the outer algebra (1 + D G0/m0)/(m0^2-m^2+f-i m0 Gamma) is proved; that hFun, dh_dsFun, dFun, fsFun equal the docstring's h, dh/dm, D, f is validated numerically against an independent numpy implementation (tol 2e-9), not proved",
-    "MultiBWR and BWR_below are tied by correspondence with the Float model + the numpy oracle; their Lean theorems are those of the BWR2 core they call (BWR2_eq_conj_spec / BWR2fix_eq_spec) and adHoc_eq_doc",
-    "sympy denominators are evaluated numerically with sympy.lambdify(numpy) and compared with the Float instance of the Lean *_dom functions and with 1/lineShape of the implementation; sympy itself is not verified. Flatte/FlatteC get_sympy_dom (sheet = all ones) is validated numerically only",
+    "GS_rho: proved that GS, hFun, dh_dsFun, dFun, fsFun are the docstring's R, h, dh/dm^2, D, f above the two-pion threshold, reading the docstring's 2 m_pi as c_daug2Mass + c_daug3Mass and pi as the code's literal 3.14159265359 (proved within 2.1e-13 of Real.pi); dh_dsFun is proved to be d hFun/ds (HasDerivAt) for equal daughter masses only - for unequal masses d(k^2)/ds = 1/4 - S^2 D^2/(4 s^2) (proved), so with the default m_pi+ != m_pi0 the documented dh/ds formula is an approximation at the 4e-6 level (not a code-vs-documentation difference); at / below the two-pion threshold twoBodyCMmom is 0 (proved) and GS divides by it - outside the claim",
+    "MultiBWR (sum_k c_ik / (m_k^2 - m^2 - i m_k Gamma_k) times barrier, any list lengths) and BWR_below (q0^2 from the documented ad-hoc mass) are proved on top of BWR2_eq_spec; how Particle.get_amp obtains |q|^2, the parent mass and m3 from the decay chain is tied by correspondence only",
+    "sympy denominators are evaluated numerically with sympy.lambdify(numpy) and compared with the Float instance of the Lean *_dom functions (BW, BWR, BWR_coupling, BWR_LS, Flatte, FlatteC) and with 1/lineShape of the implementation; sympy itself (incl. its principal branch sqrt(-x) = i sqrt(x) used for Flatte below a channel threshold) is not verified; the Lean dom_reciprocal theorems are about the Lean *_dom functions",
     "Known findings are attributed by key only when the listed variant (conjugate / m-over-m0 / float32 constant) reproduces the implementation at 2e-9 on every deviating point; any other deviation of the same model is reported as <model>:value",
 ]
 LMAX = 8
@@ -464,7 +464,7 @@ def cases_for(rng, quick, obs):
             q2i = cnum(get_relative_p2(m, m1, m2)).real
             q02i = float(cnum(get_relative_p2(np.array([m0]), m1, m2)).real[0])
             yield {"model": "BWR_LS2", "cfg": cfg, "m": m, "impl": [impl], "conj_key": KEY_LS2, "family": True,
-                   "lean": ["C15 %s %d %s" % ("bwr2fix" if fixed else "bwr2", L, fl([mm, m0, g0, qq, q02i, d])) for mm, qq in zip(m, q2i)],
+                   "lean": ["C15 %s %d %s" % ("bwr2" if fixed else "bwr2legacy", L, fl([mm, m0, g0, qq, q02i, d])) for mm, qq in zip(m, q2i)],
                    "spec": [s_BWR2(L, m, m0, g0, s_q2(m, m1, m2), s_q2(m0, m1, m2), d)[0]]}
 
             # BWR_below: resonance mass below threshold, ad-hoc q0
@@ -579,7 +579,8 @@ def cases_for(rng, quick, obs):
                 flat += [a, b_, g]
             yield {"model": model, "cfg": dict(cfg, chans=chans), "m": m, "impl": [impl], "conj_key": None,
                    "lean": ["C15 flatte " + fl([sign, mm, m0] + flat) for mm in m],
-                   "spec": [s_Flatte(sign, m, m0, chans)], "dom": dom, "dom_above": hi}
+                   "lean_dom": ["C15 flattedom " + fl([sign, mm, m0] + flat) for mm in m],
+                   "spec": [s_Flatte(sign, m, m0, chans)], "dom": dom}
 
 
 def _flatten(x):
@@ -663,7 +664,7 @@ def function_cases(rng, quick, obs):
         add("BWR", ["C15 bwr %d %s" % (L, fl(x)) for x in zip(m, m0, g0, q, q0, d)], cnum(bw.BWR(m, m0, g0, q, q0, L, d)),
             spec=s_BWR(L, m, m0, g0, q, q0, d))
         s2, c2 = s_BWR2(L, mm, mm0, gg0, qq2, qq02, dd)
-        add("BWR2", ["C15 %s %d %s" % ("bwr2fix" if fixed else "bwr2", L, fl(x)) for x in zip(mm, mm0, gg0, qq2, qq02, dd)],
+        add("BWR2", ["C15 %s %d %s" % ("bwr2" if fixed else "bwr2legacy", L, fl(x)) for x in zip(mm, mm0, gg0, qq2, qq02, dd)],
             cnum(bw.BWR2(mm, mm0, gg0, qq2, qq02, L, dd)), spec=s2, cond=c2 > COND_MIN, conj_key=KEY_BWR2)
         sn, cn = s_BWR_normal(L, mm, mm0, gg0, qq2, qq02, dd)
         add("BWR_normal", ["C15 bwrn %d %s" % (L, fl(x)) for x in zip(mm, mm0, gg0, qq2, qq02, dd)],
@@ -965,7 +966,7 @@ def replay(ctx, payload):
 
 
 MANIFEST = {
-    "text": "Lean theorems over the reals / Mathlib complex numbers for ALL masses, widths, momenta, radii and every L<=8 (and any number of partial waves / channels): the Blatt-Weisskopf coefficient tables of breit_wigner.py and formula.py, re-extracted by running the real functions on every run, equal |theta_L(i w)|^2 of the reverse Bessel polynomial (exact integers, decide +kernel; plus BprimePolynomial(w^2) = normSq theta_L(i w) in C); Bprime(q0,q0)=1, Bprime_q2 = Bprime above threshold and positive below, Gamma = documented formula, Gamma(m0)=Gamma0; BW, BWR, BWR_coupling, BWR_LS(fix_bug1), BWR_normal (principal root), Flatte, FlatteC, exp, exp_com, one, x, GS (outer algebra) equal their docstring formula as complex numbers, Im>0 and value i/(m0 Gamma0) at m0 for BW/BWR; line shape x sympy denominator = 1 for BW, BWR, BWR_coupling and BWR_LS_dom = numeric denominator. For the current tree BWR2 is PROVED to be the complex conjugate of its documented formula (Im<0, -i/(m0 Gamma0) at m0) and BWR_LS without fix_bug1 to differ from it; the patched BWR2 is proved correct.",
-    "note": "Model = templates/LineShape.lean.in instantiated at R (proofs) and Float (execution). Tie to the code: (T) coefficient tables extracted by running the real functions, theorem re-checked by lake build each run; (C) every tf_pwa.breit_wigner function, amp.core helpers, Particle.__call__/get_amp/get_ls_amp of 17 registered models (BW, BWR, default, BWR2, BWR_below, BWR_normal, BWR_coupling, BWR_LS, BWR_LS2, MultiBWR, GS_rho, Flatte, FlatteC, one, exp, exp_com, x) and 5 sympy denominators against the Float instance at 1e-10 on seeded grids, L=0..8; (S) an independent numpy evaluation of every docstring formula against the implementation at 2e-9. The harness observes which variant (BWR2 conjugated or not, float32 constants or not) the tree implements and compares with that Lean variant, so the check works before and after the proposed patches. Not verified: Float rounding, TensorFlow kernels, sympy, GS_rho sub-function formulas, MultiBWR/BWR_below composition (validated numerically).",
+    "text": "Lean theorems over the reals / Mathlib complex numbers for ALL masses, widths, momenta, radii and every L<=8 (and any number of partial waves / channels / resonances), stated for the functions the current tree implements (BWR2 after repository commit a7b0d13, double-precision constants after 6f9a2f7): the Blatt-Weisskopf coefficient tables of breit_wigner.py and formula.py, re-extracted by running the real functions on every run, equal |theta_L(i w)|^2 of the reverse Bessel polynomial (exact integers, decide +kernel; plus BprimePolynomial(w^2) = normSq theta_L(i w) in C); Bprime(q0,q0)=1, Bprime_q2 = Bprime above threshold and positive below, Gamma = documented formula, Gamma(m0)=Gamma0; BW, BWR, BWR2, BWR_below, BWR_normal (principal root), BWR_coupling, BWR_LS(fix_bug1), MultiBWR, Flatte, FlatteC, exp, exp_com, one, x and GS_rho (including h, dh/dm^2, D, f of its docstring; dh_dsFun = d hFun/ds as HasDerivAt for equal daughter masses) equal their docstring formula as complex numbers; Im>0 and value i/(m0 Gamma0) at m0 for BW/BWR/BWR2; line shape x sympy denominator = 1 for BW, BWR, BWR_coupling, Flatte, FlatteC (all sheet bits set, real m above and below channel thresholds) and BWR_LS_dom = numeric denominator. Kept refutations: the BWR2 of the tree before a7b0d13 is PROVED to be the complex conjugate of the documented formula (BWR2legacy_*), and BWR_LS without fix_bug1 (the default, listed finding) to differ from its documentation.",
+    "note": "Model = templates/LineShape.lean.in instantiated at R (proofs) and Float (execution). Tie to the code: (T) coefficient tables extracted by running the real functions, theorem re-checked by lake build each run; (C) every tf_pwa.breit_wigner function, amp.core helpers, Particle.__call__/get_amp/get_ls_amp of 17 registered models (BW, BWR, default, BWR2, BWR_below, BWR_normal, BWR_coupling, BWR_LS, BWR_LS2, MultiBWR, GS_rho, Flatte, FlatteC, one, exp, exp_com, x) and 7 sympy denominators against the Float instance at 1e-10 on seeded grids, L=0..8; (S) an independent numpy evaluation of every docstring formula against the implementation at 2e-9. The harness observes which variant (BWR2 conjugated or not, float32 constants or not) the tree implements and compares with that Lean variant (BWR2 / BWR2legacy, flag f32), so a revert of either fix commit is reported under its own key. Not verified: Float rounding, TensorFlow kernels, sympy, how get_amp collects momenta/masses from the decay chain for BWR_below (correspondence only), GS at/below the two-pion threshold.",
     "technique": "Lean 4 proof over R and C of one template instantiated at Float for differential correspondence with the implementation; translator-extracted tables checked by decide +kernel",
 }
